@@ -10,6 +10,8 @@ import (
 	"sync/atomic"
 	"time"
 
+	"golang.org/x/sys/unix"
+
 	"github.com/panjf2000/gnet/v2/internal/vsup"
 )
 
@@ -62,9 +64,9 @@ type peerSpec struct {
 	id       int
 	seed     uint64
 	network  string
-	total    int   // bytes the peer sends
-	segs     []int // segment sizes (sum = total)
-	lockstep bool  // wait until the handler has been given each segment before sending the next
+	total    int    // bytes the peer sends
+	segs     []int  // segment sizes (sum = total)
+	lockstep bool   // wait until the handler has been given each segment before sending the next
 	shut     string // how it ends: "fin" (half close, then read to EOF), "close", "rst", "server" (the handler closes), "abandon" (stay open until shutdown)
 	peerRead string // "normal", "slow", "stall"
 	consume  string // handler: "all", "dribble", "mixed", "lazy", "peekonly"
@@ -83,37 +85,39 @@ type peerSpec struct {
 }
 
 type vconn struct {
-	spec     *peerSpec
-	c        Conn
-	h        int
-	rng      *vsup.Rng
-	consumed int
-	kOut     int // next frame seq of writer 0
-	outBytes int // bytes of frames written by the handler so far
+	spec      *peerSpec
+	c         Conn
+	h         int
+	rng       *vsup.Rng
+	consumed  int
+	kOut      int // next frame seq of writer 0
+	outBytes  int // bytes of frames written by the handler so far
 	callbacks int
-	finSent  bool
+	finSent   bool
 	asyncLeft int32
-	asyncCbs int32 // asynchronous writes issued whose callback has not run yet
-	closed   bool
-	lazyLeft int
+	asyncCbs  int32 // asynchronous writes issued whose callback has not run yet
+	closed    bool
+	lazyLeft  int
 }
 
 type vhandler struct {
-	rec     *recorder
-	cfg     *sysCfg
-	conns   sync.Map // Conn -> *vconn
-	peers   sync.Map // address string -> *peerSpec
-	eng     Engine
-	booted  chan struct{}
-	ticks   int32
-	tickStop int32 // tick number at which OnTick returns Shutdown (0: never)
-	opened  int32
-	closedN int32
-	asyncWG sync.WaitGroup
-	areq    int64
-	bootAction Action
+	rec             *recorder
+	cfg             *sysCfg
+	conns           sync.Map // Conn -> *vconn
+	peers           sync.Map // address string -> *peerSpec
+	eng             Engine
+	booted          chan struct{}
+	ticks           int32
+	tickStop        int32 // tick number at which OnTick returns Shutdown (0: never)
+	opened          int32
+	closedN         int32
+	asyncWG         sync.WaitGroup
+	areq            int64
+	bootAction      Action
 	stopFromTraffic int32 // conn id whose next OnTraffic returns Shutdown
-	pendingCb int32 // asynchronous requests accepted with a callback that has not run yet
+	pendingCb       int32 // asynchronous requests accepted with a callback that has not run yet
+	dupMu           sync.Mutex
+	userDups        []int // descriptors obtained through Conn.Dup: ours to close
 }
 
 func (h *vhandler) OnBoot(eng Engine) Action {
@@ -179,8 +183,17 @@ func (h *vhandler) OnOpen(c Conn) (out []byte, action Action) {
 	}
 	vc := &vconn{spec: sp, c: c, h: hd, rng: vsup.NewRng(sp.seed), lazyLeft: 3}
 	h.conns.Store(c, vc)
-	atomic.AddInt32(&h.opened, 1)
 	h.rec.emit("Open", "c", sp.id, "h", hd, "g", g, "raddr", raddr, "laddr", laddr, "fd", c.Fd(), "loop", c.(*conn).loop.idx)
+	atomic.AddInt32(&h.opened, 1)
+	if vc.rng.Intn(4) == 0 {
+		// a descriptor handed to the user: the framework must never close it
+		if fd, err := c.Dup(); err == nil {
+			h.rec.emit("UserDup", "fd", fd, "c", sp.id)
+			h.dupMu.Lock()
+			h.userDups = append(h.userDups, fd)
+			h.dupMu.Unlock()
+		}
+	}
 	if sp.openOut >= 0 {
 		f := mkFrame(sp.id, 0, vc.kOut, sp.openOut)
 		h.rec.emit("WIssue", "c", sp.id, "op", "OnOpenOut", "w", 0, "k", vc.kOut, "len", len(f))
@@ -203,11 +216,25 @@ func (h *vhandler) OnOpen(c Conn) (out []byte, action Action) {
 		}
 	}
 	if sp.closeAt == 0 && sp.closeHow == "action" {
+		h.rec.emit("CloseReq", "c", sp.id, "how", "action-onopen")
 		h.rec.emit("OpenEnd", "c", sp.id, "action", "Close")
 		return out, Close
 	}
 	h.rec.emit("OpenEnd", "c", sp.id, "action", "None")
 	return out, None
+}
+
+// closeUserDups closes the descriptors obtained through Dup, checking that they are still ours.
+func (h *vhandler) closeUserDups() {
+	h.dupMu.Lock()
+	defer h.dupMu.Unlock()
+	for _, fd := range h.userDups {
+		var st unix.Stat_t
+		err := unix.Fstat(fd, &st)
+		h.rec.emit("UserDupClose", "fd", fd, "ok", err == nil && st.Mode&unix.S_IFMT == unix.S_IFSOCK)
+		_ = unix.Close(fd)
+	}
+	h.userDups = nil
 }
 
 func (h *vhandler) newReq() int { return int(atomic.AddInt64(&h.areq, 1)) }
@@ -399,6 +426,20 @@ func (h *vhandler) readOps(vc *vconn, c Conn) {
 	emitR := func(op string, req, n int, ok bool, err error) {
 		h.rec.emit("ROp", "c", sp.id, "op", op, "req", req, "n", n, "ok", ok, "err", errClass(err), "ib", c.InboundBuffered())
 	}
+	h.readOps0(vc, c, emitR)
+	// the peer has sent everything and it is all here: finish the stream, whatever the policy left behind
+	if vc.consumed+c.InboundBuffered() >= sp.total && c.InboundBuffered() > 0 {
+		avail := c.InboundBuffered()
+		b, err := c.Next(-1)
+		ok := vsup.Match(b, id, vc.consumed) < 0 && len(b) == avail
+		vc.consumed += len(b)
+		emitR("Next", -1, len(b), ok, err)
+	}
+}
+
+func (h *vhandler) readOps0(vc *vconn, c Conn, emitR func(op string, req, n int, ok bool, err error)) {
+	sp := vc.spec
+	id := 1000 + sp.id
 	sizes := []int{0, 1, 2, 3, 7, 100, 511, 512, 1000, 4096, 65536}
 	for round := 0; round < 6; round++ {
 		avail := c.InboundBuffered()
@@ -510,14 +551,6 @@ func (h *vhandler) readOps(vc *vconn, c Conn) {
 			break
 		}
 	}
-	// the peer has sent everything and it is all here: finish the stream
-	if vc.consumed+c.InboundBuffered() >= sp.total && c.InboundBuffered() > 0 && sp.consume != "peekonly" {
-		avail := c.InboundBuffered()
-		b, err := c.Next(-1)
-		ok := vsup.Match(b, id, vc.consumed) < 0 && len(b) == avail
-		vc.consumed += len(b)
-		emitR("Next", -1, len(b), ok, err)
-	}
 }
 
 func (h *vhandler) writeOps(vc *vconn, c Conn) {
@@ -589,8 +622,13 @@ func (h *vhandler) OnClose(c Conn, err error) Action {
 		return None
 	}
 	vc := v.(*vconn)
-	atomic.AddInt32(&h.closedN, 1)
 	h.rec.emit("Close", "c", vc.spec.id, "g", g, "err", errClass(err), "ib", c.InboundBuffered(), "consumed", vc.consumed)
+	defer atomic.AddInt32(&h.closedN, 1) // after the event is in the log (the scenario's quiescence test reads it)
+	if vc.rng.Intn(4) == 0 {
+		// a farewell written from OnClose (best effort; it may well fail on a reset connection)
+		n, werr := c.Write([]byte("bye"))
+		h.rec.emit("CloseWrite", "c", vc.spec.id, "n", n, "err", errClass(werr))
+	}
 	if vc.spec.closeHow == "shutdown-onclose" {
 		h.rec.emit("StopReq", "src", "OnClose", "g", g)
 		return Shutdown
